@@ -118,7 +118,8 @@ def replay_exact(ctx: core.Ctx, prefix_filter=None) -> None:
 def gen_configs(seed: int, n: int, nx_max: int, families: str = "all") -> list[dict]:
     rng = np.random.default_rng([seed, 101])
     tables_single = ["pvt_gas", "haynesville", "ideal_csv", "synth_z:0.0002", "synth_z:0.0", "synth_alpha:rising",
-                     "synth_alpha:falling", "synth_alpha:kinked", "synth_alpha:steep", "built:0.7,200", "built:1.1,120"]
+                     "synth_alpha:falling", "synth_alpha:kinked", "synth_alpha:steep", "synth_alpha:stepped", "built:0.7,200",
+                     "built:1.1,120"]
     cfgs = []
     for i in range(n):
         kind = "single" if rng.random() < 0.7 else "ideal"
@@ -140,7 +141,7 @@ def gen_configs(seed: int, n: int, nx_max: int, families: str = "all") -> list[d
         nx = int(rng.choice([3, 4, 5, 8, 13, 20, 30, 50, 80, 150, 400])) if nx_max >= 400 else \
             int(rng.choice([3, 4, 5, 8, 13, 20, 30, 50, 80]))
         nx = min(nx, nx_max)
-        grid = str(rng.choice(["uniform", "quadratic", "geometric", "random", "jumpy", "huge"]))
+        grid = str(rng.choice(["uniform", "quadratic", "geometric", "random", "jumpy", "huge", "drift", "tiny", "intdays", "f32"]))
         nt = int(rng.integers(3, 120)) if nx > 100 else int(rng.integers(3, 400))
         if ratio >= 0.99:
             nt = min(nt, 150)
@@ -148,8 +149,20 @@ def gen_configs(seed: int, n: int, nx_max: int, families: str = "all") -> list[d
         sched = "none"
         if kind == "single":
             sched = str(rng.choice(["none", "none", "const", "stepdown", "arbitrary", "updown"]))
-        cfgs.append({"kind": kind, "table": tab, "nx": nx, "pf": pf, "pi": pi, "grid": grid, "nt": nt, "tend": tend,
-                     "sched": sched, "seed": int(rng.integers(0, 2**31 - 1))})
+        c = {"kind": kind, "table": tab, "nx": nx, "pf": pf, "pi": pi, "grid": grid, "nt": nt, "tend": tend,
+             "sched": sched, "seed": int(rng.integers(0, 2**31 - 1))}
+        if kind == "single" and rng.random() < 0.15:
+            others = [t2 for t2 in ("pvt_gas", "ideal_csv", "synth_z:0.0002", "synth_alpha:rising") if t2 != tab]
+            t2 = str(rng.choice(others))
+            if float(np.asarray(sdrv.table(t2)["pressure"])[-1]) >= pi:
+                c["prelude"] = t2
+        cfgs.append(c)
+    # fine meshes with few steps are always present (node counts up to 400 are in the property's quantifier)
+    for j, nxf in enumerate((193, 256, 400)):
+        if nx_max >= 100 and len(cfgs) > 3 + j:
+            base = dict(cfgs[j])
+            base.update({"nx": nxf, "nt": 12, "grid": "random", "tend": 0.5})
+            cfgs[-1 - j] = base
     return cfgs
 
 
